@@ -98,7 +98,7 @@ func c08Dispatch(c *Ctx, r *Report, a *Anchors) {
 				}
 			}
 			if static {
-				r.check("C08.DISPATCH", key, ci.Pos(), false, "the selection set of a value behind an abstract-typed field is resolved against the static abstract type itself: __typename reports the abstract type's name and fragments on the concrete type never apply")
+				r.flag("C08.DISPATCH", key, ci.Pos(), "the selection set of a value behind an abstract-typed field is resolved against the static abstract type itself: __typename reports the abstract type's name and fragments on the concrete type never apply")
 				continue
 			}
 			// concrete: must be selected under objType == meta
